@@ -20,6 +20,7 @@ import (
 	"github.com/jrivets/log4g"
 	"github.com/logrange/logrange/pkg/model/field"
 	"github.com/logrange/logrange/pkg/model/tag"
+	"github.com/logrange/logrange/pkg/utils/verifhook"
 	context2 "github.com/logrange/range/pkg/context"
 	"io"
 	"time"
@@ -100,5 +101,6 @@ func (w *worker) run(ctx context.Context) {
 		}
 	}
 
+	verifhook.At("pipe.worker.beforeDone")
 	w.logger.Debug("Seems no data in ", w.srcTags, ", or the context is closed ctx.Err()=", ctx.Err(), " leaving the worker routine")
 }
